@@ -132,18 +132,28 @@ func main() {
 func instrument(src, module string, r *report) {
 	fset := token.NewFileSet()
 	pkgs := map[string]*pkgInfo{}
-	entries, err := os.ReadDir(src)
-	if err != nil {
-		fatal("%v", err)
-	}
-	for _, e := range entries {
-		if !e.IsDir() || e.Name() == "simhook" || strings.HasPrefix(e.Name(), ".") {
-			continue
+	// every directory below the module root that holds non-test Go files is a package
+	// (the root itself - package main - is not instrumented; it is run as a subprocess)
+	var dirs []string
+	filepath.Walk(src, func(path string, info os.FileInfo, err error) error {
+		if err != nil || !info.IsDir() {
+			return nil
 		}
-		dir := filepath.Join(src, e.Name())
+		base := filepath.Base(path)
+		if path != src && (strings.HasPrefix(base, ".") || base == "testdata" || base == "vendor" || (base == "simhook" && filepath.Dir(path) == src)) {
+			return filepath.SkipDir
+		}
+		if path != src {
+			dirs = append(dirs, path)
+		}
+		return nil
+	})
+	sort.Strings(dirs)
+	for _, dir := range dirs {
 		gofiles, _ := filepath.Glob(filepath.Join(dir, "*.go"))
 		sort.Strings(gofiles)
-		p := &pkgInfo{dir: dir, path: module + "/" + e.Name()}
+		rel, _ := filepath.Rel(src, dir)
+		p := &pkgInfo{dir: dir, path: module + "/" + filepath.ToSlash(rel)}
 		for _, gf := range gofiles {
 			if strings.HasSuffix(gf, "_test.go") {
 				continue
